@@ -170,6 +170,98 @@ def oracle(cmds, snaps, perms=None):
     return None
 
 
+async def _pipelined_session(loop, start_dir, lines, delay):
+    """`lines` sent in ONE segment from working directory `start_dir`, on a backend whose calls suspend: the handlers
+    run side by side.  Returns (tree before, tree after, reply codes)."""
+    import asyncio
+
+    import spyio
+    import world as W
+
+    spy = spyio.Spy()
+    wd = W.World(loop, users(), spy=spy)
+    await wd.start()
+    try:
+        wd.set_tree(W_TREE)
+        raw = await wd.raw_client()
+        await W.run_line(wd, raw, b"USER bob")
+        await W.run_line(wd, raw, ("CWD " + start_dir).encode())
+        before = wd.tree()
+        spy.delay = abs(delay)
+        if delay < 0:
+            # calls about FILES are slow, calls about directories fast: a CWD overtakes the checks of a file command
+            spy.delay_fn = lambda name, shown: 0.05 if "." in str(shown).rsplit("/", 1)[-1] else 0
+        n0 = len(raw.replies)
+        raw.send_raw("".join(l + "\r\n" for l in lines).encode())
+        await loop.settle()
+        waited = 0.0
+        while waited < 4.0 and not raw.eof and len([c for c, _ in raw.replies[n0:] if not c.startswith("1")]) < len(lines):
+            await asyncio.sleep(0.25)
+            waited += 0.25
+            await loop.settle()
+        spy.delay = 0
+        spy.delay_fn = None
+        codes = [c for c, _ in raw.replies[n0:]]
+        after = wd.tree()
+        raw.close()
+        await loop.settle()
+    finally:
+        try:
+            await wd.stop()
+        except Exception:
+            wd.finish()
+    return before, after, codes
+
+
+def _pipelined_job(args):
+    import simnet
+
+    try:
+        return simnet.run(_pipelined_session, *args[:3], task_salt=args[3])
+    except BaseException as e:  # noqa
+        return "HARNESS-ERROR %s: %s" % (type(e).__name__, e)
+
+
+def run_pipelined(ctx):
+    """a mutating command with a RELATIVE argument and a CWD in one segment: whichever way the two handlers
+    interleave, what changes lies under an entry that allows it (the path the permission was judged for)"""
+    import multiprocessing
+    import os
+
+    res = Result()
+    jobs = []
+    firsts = ["DELE a.txt", "DELE b.txt", "RMD rw", "RMD deep", "MKD newdir", "RNFR a.txt\r\nRNTO moved.txt", "RNFR d.txt\r\nRNTO /free/moved.txt", "DELE ../top.txt"]
+    for start in W_DIRS:
+        for first in firsts:
+            for d2 in W_DIRS:
+                if d2 == start:
+                    continue
+                for delay, salt in ((0.01, 0), (-0.01, 1), (-0.01, 0), (0, 0)) if ctx.thorough() else ((-0.01 if len(jobs) % 2 else 0.01, (len(jobs) % 3)),):
+                    jobs.append((start, [first, "CWD " + d2, "PWD"], delay, salt))
+                    if ctx.thorough():
+                        jobs.append((start, ["CWD " + d2, first], delay, salt))
+    mp = multiprocessing.get_context("fork")
+    with mp.Pool(min(16, os.cpu_count() or 4)) as pool:
+        outs = pool.map(_pipelined_job, jobs, chunksize=8)
+    for job, o in zip(jobs, outs):
+        res.cases += 1
+        res.count("wire_pipelined_pairs")
+        inp = {"kind": "pipelined", "start": job[0], "lines": job[1], "backend_delay": job[2], "task_salt": job[3]}
+        if isinstance(o, str):
+            res.disagreements.append({"correspondence": "C04 pipelined harness", "input": inp, "impl": o})
+            continue
+        res.distinct.add(("pipelined", job[0], tuple(job[1])))
+        a, b = parse_tree(o[0]), parse_tree(o[1])
+        changed = [k for k in set(a) | set(b) if a.get(k) != b.get(k)]
+        top = [k for k in changed if not any(k[:n] in changed for n in range(1, len(k)))]
+        for k in top:
+            r, w = nearest(list(k))
+            if not w:
+                res.oracle_failures.append({"input": inp, "what": "%r sent in one segment from %s changed /%s, which lies under a non-writable permission entry (replies %s)" % (job[1], job[0], "/".join(k), o[2]), "signature": "C04:wire:modified-under-non-writable"})
+                break
+    return res
+
+
 def run_late(ctx):
     """a transfer checked in one working directory, a CWD, and only then the data connection"""
     from props import late_common as LC
@@ -227,6 +319,16 @@ def _run_universe(ctx, res, tag, perms, tree, hist, compare):
 
 def replay(inp):
     from props import c05
+
+    if inp.get("kind") == "pipelined":
+        o = _pipelined_job((inp["start"], inp["lines"], inp["backend_delay"], inp["task_salt"]))
+        if isinstance(o, str):
+            print(o)
+            return True
+        a, b = parse_tree(o[0]), parse_tree(o[1])
+        changed = sorted(k for k in set(a) | set(b) if a.get(k) != b.get(k))
+        print("replies", o[2], "changed", changed)
+        return any(not nearest(list(k))[1] for k in changed if not any(k[:n] in changed for n in range(1, len(k))))
 
     cmds = inp["wire_commands"]
     perms, tree = (U_PERMS, U_TREE) if inp.get("table") == "unicode" else (W_PERMS, W_TREE)
